@@ -31,7 +31,7 @@ RULE = (
     "function, method of a nested class, method, function inside a function, function two functions deep, "
     "decorated function, a method and a nested function sharing their bare names with module-level functions, a "
     "closure referring to itself, closures whose only instance is created by the history (factory at module "
-    "level / a method / itself a closure), a function under two stacked decorators) x history (<=15 quick / <=40 thorough ops, plus in a quarter of the cases an inserted burst `two probes on one target at once, then a call`) of {activate probe by name | by reference, "
+    "level / a method / itself a closure), a function under two stacked decorators) x history (<=15 quick / <=40 thorough ops, plus in a quarter of the cases an inserted burst `two probes on one target at once, then a call` or `probe a nested function, probe its enclosing function, resolve and call the nested one`) of {activate probe by name | by reference, "
     "activate a path probe in which the target is only the enclosing call, deactivate innermost, call, resolve "
     "reference, create the lazy closure instance, execute the unchanged module again (only while no probe is active)} x codefind lookup regime (gc scan / cache). evaluations = "
     "operations applied. Non-trivial = a resolve or an activation by reference happens while >=1 other probe on "
@@ -560,6 +560,14 @@ def strategy(max_ops):
             bt = draw(st.sampled_from(focus))
             burst = [("act", bt, draw(st.sampled_from(["name", "ref"]))), ("act", bt, draw(st.sampled_from(["name", "name", "ref"]))),
                      ("call", bt, draw(st.integers(0, 9)))]
+            if draw(st.integers(0, 2)) == 0:
+                # ... or: a function nested in another one is probed, then its enclosing function,
+                # then the nested one is resolved and called
+                inner_t, outer_t = draw(st.sampled_from([("inner", "maker"), ("leaf", "deep"), ("leaf", "deep"), ("lfun", "lmaker"),
+                                                         ("lfun2", "lmake2"), ("lfun3", "lmk3"), ("lfun4", "lmk4")]))
+                burst = ([("make", inner_t)] if inner_t in LAZY else []) + [
+                    ("act", inner_t, draw(st.sampled_from(["name", "ref"]))), ("act", outer_t, draw(st.sampled_from(["name", "ref"]))),
+                    ("resolve", inner_t), ("call", inner_t, draw(st.integers(0, 9)))]
             at = draw(st.integers(0, len(ops)))
             ops = ops[:at] + burst + ops[at:]
         regime = draw(st.sampled_from(["scan", "cache"]))
